@@ -26,3 +26,6 @@ def run(repo, res, tier):
     # dash and the line end (the wrap flags of PVLEncoder.format)
     from .. import encrules
     encrules.rule_w1(repo, res, which=("flags",))
+    # the lexer's character step: total at the ends of the text, keeps every character that is not grammar white space
+    from .. import lexsim as _ls
+    _ls.rule_comment_kind(repo, res)
